@@ -1,8 +1,9 @@
 -------------------------- MODULE TraceHashPrefix --------------------------
 (***************************************************************************)
 (* Trace validation for C19.  A trace is a concatenation of walks; each    *)
-(* walk starts with a "reset" line (a new Checker with an empty cache, the *)
-(* service database given in full) followed by                             *)
+(* walk starts with a "reset" line (a new Checker with an empty cache; the *)
+(* service database in full; t = life time of its entries in ticks)        *)
+(* followed by                                                             *)
 (*   check  one call of the real code: the name (labels, cut, opt, and the *)
 (*          hash [p, r] of every domain of its last-four-label chain), the *)
 (*          set q of prefixes seen in the question(s) sent to the mock     *)
@@ -27,34 +28,34 @@ Trace == ndJsonDeserialize("trace.ndjson")
 
 Set(s) == {s[i] : i \in DOMAIN s}
 
-INSTANCE HashPrefixCore WITH T <- Trace[1].t
+INSTANCE HashPrefixCore
 
 \* every prefix a cache entry can ever be needed for
 AllPrefixes == UNION {{x.p : x \in Set(Trace[i].n.h)} : i \in DOMAIN Trace}
 EmptyCache == [p \in AllPrefixes |-> [ttl |-> 0, hs |-> {}]]
 
-VARIABLES l, db, cache, skip, bad, nskip
+VARIABLES l, db, cache, life, skip, bad, nskip
 
 Accepts(e) ==
     /\ e.ok
     /\ \E o \in Outcomes(e.n, cache, db) : o.q = Set(e.q) /\ o.v = e.v
 
-Init == l = 1 /\ db = {} /\ cache = EmptyCache /\ skip = FALSE /\ bad = {} /\ nskip = 0
+Init == l = 1 /\ db = {} /\ cache = EmptyCache /\ life = 1 /\ skip = FALSE /\ bad = {} /\ nskip = 0
 
 Step(e) ==
     IF e.a = "reset"
-    THEN /\ db' = Set(e.db) /\ cache' = EmptyCache /\ skip' = FALSE
+    THEN /\ db' = Set(e.db) /\ cache' = EmptyCache /\ life' = e.t /\ skip' = FALSE
          /\ UNCHANGED <<bad, nskip>>
     ELSE IF skip
-    THEN /\ nskip' = nskip + 1 /\ UNCHANGED <<db, cache, skip, bad>>
+    THEN /\ nskip' = nskip + 1 /\ UNCHANGED <<db, cache, life, skip, bad>>
     ELSE IF e.a = "tick"
-    THEN /\ cache' = Age(cache, e.d) /\ UNCHANGED <<db, skip, bad, nskip>>
+    THEN /\ cache' = Age(cache, e.d) /\ UNCHANGED <<db, life, skip, bad, nskip>>
     ELSE IF e.a = "db"
-    THEN /\ db' = (db \ Set(e.del)) \cup Set(e.add) /\ UNCHANGED <<cache, skip, bad, nskip>>
+    THEN /\ db' = (db \ Set(e.del)) \cup Set(e.add) /\ UNCHANGED <<cache, life, skip, bad, nskip>>
     ELSE IF Accepts(e)
-    THEN /\ cache' = Store(cache, Set(e.q), Received(db, Set(e.q)))
-         /\ UNCHANGED <<db, skip, bad, nskip>>
-    ELSE /\ bad' = bad \cup {l} /\ skip' = TRUE /\ UNCHANGED <<db, cache, nskip>>
+    THEN /\ cache' = Store(cache, Set(e.q), Received(db, Set(e.q)), life)
+         /\ UNCHANGED <<db, life, skip, bad, nskip>>
+    ELSE /\ bad' = bad \cup {l} /\ skip' = TRUE /\ UNCHANGED <<db, cache, life, nskip>>
          \* diagnostics for the replay record: what the rules admit here
          /\ PrintT(<<"@@V", ToJson([line |-> l,
                                     admissible |-> {[q |-> o.q, v |-> o.v] : o \in Outcomes(e.n, cache, db)},
@@ -65,5 +66,5 @@ Next == /\ l <= Len(Trace)
         /\ l' = l + 1
         /\ (l' = Len(Trace) + 1 =>
               PrintT(<<"@@V", ToJson([n |-> Len(Trace), bad |-> bad', skipped |-> nskip'])>>))
-Spec == Init /\ [][Next]_<<l, db, cache, skip, bad, nskip>>
+Spec == Init /\ [][Next]_<<l, db, cache, life, skip, bad, nskip>>
 =============================================================================
